@@ -260,6 +260,8 @@ let type_model out =
     | [hex; "=>"; "LEXERR"] -> Printf.fprintf out "%s => LEXERR\n" hex
     | [hex; "=>"; toks] ->
       let ts = List.map parse_tok (List.filter (fun x -> x <> "") (String.split_on_char ';' toks)) in
+      (* the hypotheses of the span theorem for types, evaluated on this real token list *)
+      if not (type_input_okb ts) then Printf.fprintf out "%s => NOT-INPUT-OK\n" hex else
       (match parse_type ts with
        | Ok (t, _) ->
          let b = Buffer.create 256 in
